@@ -1,0 +1,12 @@
+//go:build verif
+
+package raft
+
+// VerifStats returns the statistics of the underlying raft node (state, term,
+// last_log_index, commit_index, applied_index, ...) for the verification harness.
+func (r *Raft) VerifStats() map[string]string {
+	if r == nil || r.raft == nil {
+		return nil
+	}
+	return r.raft.Stats()
+}
